@@ -79,7 +79,13 @@ def run_case(rng, tier, res):
     res.sig(configs, dom_mode, sync_freq)
 
     if dom_mode == "explicit_other":
-        b = Bench(dut, domain="aux", freq=60e6, clocks={"sync": sync_freq}, max_cycles=400000)
+        try:
+            b = Bench(dut, domain="aux", freq=60e6, clocks={"sync": sync_freq}, max_cycles=400000)
+        except (NameError, ValueError) as e:
+            if "not present" not in str(e):
+                raise
+            res.violation("requested_domain_not_used", "stretch_strobe_signal(domain=m.d.aux): %s" % e)
+            return
     else:
         b = Bench(dut, domain="sync", freq=60e6, max_cycles=400000)
     from amaranth import Cat
